@@ -33,7 +33,9 @@ type eqKind struct {
 
 var eqPool = [][]byte{[]byte("a"), []byte("b"), []byte("c"), []byte("dd"), []byte("eee"), []byte("0123456789abcdefg"), []byte("x1"), []byte("y2"), []byte("z3"), []byte("q"),
 	// names that escaping schemes treat specially (valid UTF-8: invalid names are finding D23)
-	[]byte("c++"), []byte("1+1=2%41"), []byte("a/b\\c\"q\""), []byte("caf\xc3\xa9")}
+	[]byte("c++"), []byte("1+1=2%41"), []byte("a/b\\c\"q\""), []byte("caf\xc3\xa9"),
+	// names that read as the same number, and one longer than any small-buffer threshold
+	[]byte("3"), []byte("003"), []byte("3.0"), []byte("0123456789012345678901234567890123456789012345678901234567890123456789")}
 
 func init() { register("equals", suiteEquals) }
 
